@@ -373,7 +373,9 @@ class Inliner:
             return {}
         out = {}
         for f in cls.body:
-            if isinstance(f, ast.FunctionDef) and f.name not in known and not f.name.startswith("__"):
+            if isinstance(f, ast.FunctionDef) and f.name not in known and not f.name.startswith("__") and f.name not in MULTIPLY_DEFINED[0]:
+                # (a method name defined in several classes may be an override: self.m() is dispatched on the instance's class,
+                # inlining the definition found here would be wrong for subclasses)
                 out[f.name] = f
         return out
 
@@ -798,6 +800,7 @@ def pure_expr(e):
     return True
 
 
+MULTIPLY_DEFINED = [set()]     # method names defined in more than one class of the analysed packages
 REBOUND = [None]      # attribute names rebound through `self.<attr> = ...` outside __init__ anywhere in the analysed packages
 
 
@@ -911,6 +914,17 @@ def stable_index(sl):
         if isinstance(x, ast.Call):
             return False
     return True
+
+
+def collect_multiply_defined(trees):
+    count = {}
+    for tree in trees:
+        for c in tree.body:
+            if isinstance(c, ast.ClassDef):
+                for f in c.body:
+                    if isinstance(f, ast.FunctionDef):
+                        count[f.name] = count.get(f.name, 0) + 1
+    return {n for n, k in count.items() if k > 1}
 
 
 def collect_rebound(trees):
